@@ -67,6 +67,9 @@ def _roundtrip(rec, int_keys, str_keys):
     else:
         if back.ref != rec.ref or back.alt != rec.alt:
             return -3
+    for k in int_keys + str_keys:
+        if k not in back.attrs:
+            return -6              # an attribute was lost
     for k in int_keys:
         if int(back.attrs[k]) != rec.attrs[k]:
             return -4              # position attribute shifted by the round trip
@@ -87,7 +90,7 @@ CODES = {-1: 'start/end changed by the GVF round trip', -2: 'seqname or id chang
          -20: 'a parser emits an attribute key this harness does not know (extend KNOWN_KEYS)'}
 
 
-def _small(kind, start, ref, alt, gpos):
+def _small(kind, start, ref, alt, gpos, no_symbol=False):
     """kind 0 SNV, 1 INDEL, 2 MNV, 3 RNAEditingSite"""
     n = len(ref)
     if kind in (0, 3) and not (len(ref) == 1 and len(alt) == 1):
@@ -97,7 +100,8 @@ def _small(kind, start, ref, alt, gpos):
     if kind == 2 and not (len(ref) >= 2 and len(alt) >= 2):
         return SKIP
     _type = ['SNV', 'INDEL', 'MNV', 'RNAEditingSite'][kind]
-    attrs = {'TRANSCRIPT_ID': 'T1', 'GENOMIC_POSITION': f'chr1:{gpos}-{gpos + n}', 'GENE_SYMBOL': 'SYM'}
+    # a gene without gene_name in the GTF is written with an empty GENE_SYMBOL value
+    attrs = {'TRANSCRIPT_ID': 'T1', 'GENOMIC_POSITION': f'chr1:{gpos}-{gpos + n}', 'GENE_SYMBOL': '' if no_symbol else 'SYM'}
     if kind == 3:
         attrs['STRAND'] = -1
     rec = VariantRecord(FeatureLocation(seqname='G1', start=start, end=start + n),
@@ -111,9 +115,9 @@ def _small(kind, start, ref, alt, gpos):
 
 
 @cond('C13', bounds='SNV / INDEL / MNV / RNAEditingSite records: REF, ALT any A-Z strings of length '
-      '<= 2, position < 59000 (token), parser attribute set', encodes=ENC, codes=CODES, tokens=True,
+      '<= 2, position < 59000 (token), parser attribute set, gene symbol present or empty', encodes=ENC, codes=CODES, tokens=True,
       timeout=500)
-def c13_line_small(kind: int, start: int, ref: List[int], alt: List[int], gpos: int) -> int:
+def c13_line_small(kind: int, start: int, ref: List[int], alt: List[int], gpos: int, no_symbol: bool) -> int:
     """
     pre: 0 <= kind <= 3
     pre: 0 <= start < 59000 and 0 <= gpos < 59000
@@ -121,7 +125,7 @@ def c13_line_small(kind: int, start: int, ref: List[int], alt: List[int], gpos: 
     pre: all(65 <= c <= 90 for c in ref) and all(65 <= c <= 90 for c in alt)
     post: _ >= 0
     """
-    return _small(kind, start, ref, alt, gpos)
+    return _small(kind, start, ref, alt, gpos, no_symbol)
 
 
 def _structural(kind, start, end, ds, de, ap, base):
